@@ -27,6 +27,11 @@ from .explore import digest
 CHILD_GATE = 100
 
 
+def kname(i: int) -> str:
+    """The context key of the i-th item; the second one is called ``self`` (a legal key like any other)."""
+    return 'self' if i == 1 else f'k{i}'
+
+
 class ItemError(Exception):
     """Failure of an awaited item."""
 
@@ -71,17 +76,17 @@ def make_chain(spec: tuple) -> type:
         handles: Dict[str, Any] = {}
         for i, (kind, outcome) in enumerate(items):
             if kind == 'gate':
-                handles[f'k{i}'] = env.gate(self, i)
+                handles[kname(i)] = env.gate(self, i)
             elif kind == 'same':
-                handles[f'k{i}'] = handles[f'k{i - 1}']  # the previous item once more, under a key of its own
+                handles[kname(i)] = handles[kname(i - 1)]  # the previous item once more, under a key of its own
             elif kind == 'done':
                 fut = env.gate(self, i)
                 env.complete_now(i)
-                handles[f'k{i}'] = fut
+                handles[kname(i)] = fut
             else:
                 child = self.launch(Child, inputs={'i': i, 'fail': outcome == 'exc'}, pid=f'child{i}')
                 env.children[i] = child
-                handles[f'k{i}'] = child
+                handles[kname(i)] = child
         env.awaited = {k: (h.future() if isinstance(h, plumpy.Process) else h) for k, h in handles.items()}
         if how == 'return':
             return wc.ToContext(**handles)
@@ -232,7 +237,7 @@ def expected_values(world: WcWorld) -> Dict[str, Any]:
     out = {}
     for i, (kind, outcome) in enumerate(world.items):
         if kind == 'same':
-            out[f'k{i}'] = out[f'k{i - 1}']
+            out[kname(i)] = out[kname(i - 1)]
         else:
-            out[f'k{i}'] = f'g{i}' if kind in ('gate', 'done') else {'res': f'c{i}'}
+            out[kname(i)] = f'g{i}' if kind in ('gate', 'done') else {'res': f'c{i}'}
     return out
